@@ -493,6 +493,28 @@ def fam_lazyfuse(cfg, tier, rng):
                 out.append(pre + hd + ["fuse=0 insert e 0 %d lz:1:1:0" % i] + post)
     return out
 
+def fam_dropfuse(cfg, tier, rng):
+    """C03/C05: the k-th element destructor inside clear / a dropped removal handle / a dropped drain /
+    a vector drop panics."""
+    if not cfg["dg"]:
+        return []
+    L = 3 if tier == "quick" else 4
+    out = []
+    other_len = max_len(cfg, 2)
+    for n in range(1, max_len(cfg, L) + 1):
+        pre = prefix(cfg, [n, other_len])
+        ops = ["clear e 0", "clear t 0", "dropvec 0", "pop e 0 drop"]
+        for i in range(0, n):
+            ops += ["remove e 0 %d drop" % i, "swap_remove e 0 %d drop" % i]
+        for s_ in range(0, n + 1):
+            for e_ in range(s_ + 1, n + 1):
+                ops += ["drain e 0 i%d x%d - drop" % (s_, e_), "drain t 0 i%d x%d - drop" % (s_, e_)]
+        for op in ops:
+            for k in range(0, min(n, 3)):
+                post = usable_after(cfg, [1] if op.startswith("dropvec") else [0, 1])
+                out.append(pre + ["fuse=%d %s" % (k, op)] + post)
+    return out
+
 def fam_clonefuse(cfg, tier, rng):
     """C05/C08: the k-th element Clone of a whole-vector clone panics (the half-built copy is dropped)."""
     if not cloneable(cfg):
@@ -615,7 +637,8 @@ def fam_types(cfg, tier, rng):
         for i in range(0, n + 2):
             ops.append("probe_types 0 %d" % i)
             ops += ["insert e 0 %d wrong:2" % i, "insert e 0 %d boxwrong:2" % i]
-            ops += ["down_wrong 0 rm %d" % i, "down_wrong 0 srm %d" % i, "swap_wrong 0 %d" % i]
+            ops += ["down_wrong 0 rm %d" % i, "down_wrong 0 srm %d" % i, "swap_wrong 0 %d" % i,
+                    "swap_wrong 0 %d raw" % i, "swap_wrong 0 %d rawrev" % i]
         ops += ["push e 0 wrong:2", "push e 0 boxwrong:2", "push e 0 wrong:3", "down_wrong 0 pop 0"]
         for s in range(0, n + 1):
             for e in range(s, n + 1):
@@ -723,6 +746,7 @@ FAMILIES = {
     "fuse": fam_fuse,
     "lazyfuse": fam_lazyfuse,
     "clonefuse": fam_clonefuse,
+    "dropfuse": fam_dropfuse,
     "liar": fam_liar,
     "forget": fam_forget,
     "lazy": fam_lazy,
